@@ -36,7 +36,62 @@ func versDispatch(p *Prog) (map[string]*ssa.Function, token.Pos, string) {
 		}
 	}
 	if lk == nil {
-		return nil, contains.Pos(), "vers.Contains does not look the scheme up in a table of functions"
+		// the other spelling of the table: a switch over the scheme whose cases call the evaluators
+		out := map[string]*ssa.Function{}
+		var pos token.Pos
+		for _, b := range contains.Blocks {
+			for _, ins := range b.Instrs {
+				c, ok := ins.(*ssa.Call)
+				if !ok {
+					continue
+				}
+				g := c.Call.StaticCallee()
+				if g == nil || !p.IsRepoFn(g) || g.Signature.Params().Len() != 2 || g.Signature.Results().Len() != 2 {
+					continue
+				}
+				if !isStringSlice(g.Signature.Params().At(0).Type()) || !isBoolType(g.Signature.Results().At(0).Type()) {
+					continue
+				}
+				key := ""
+				domEdges(b, func(cond ssa.Value, tv bool) bool {
+					bo, ok := cond.(*ssa.BinOp)
+					if !ok || !(bo.Op == token.EQL && tv || bo.Op == token.NEQ && !tv) {
+						return false
+					}
+					x, y := bo.X, bo.Y
+					if _, isC := constString(x); isC {
+						x, y = y, x
+					}
+					k, isC := constString(y)
+					if !isC {
+						return false
+					}
+					// x is the scheme of the range: the first result of scheme(versRange)
+					ex, isEx := x.(*ssa.Extract)
+					if !isEx || ex.Index != 0 {
+						return false
+					}
+					sc, isCall := ex.Tuple.(*ssa.Call)
+					if !isCall || sc.Call.StaticCallee() != versFunc(p, "scheme") {
+						return false
+					}
+					key = k
+					return true
+				})
+				if key == "" {
+					out["?"] = nil
+					continue
+				}
+				out[key] = g
+				if pos == token.NoPos {
+					pos = c.Pos()
+				}
+			}
+		}
+		if len(out) == 0 {
+			return nil, contains.Pos(), "vers.Contains neither looks the scheme up in a table of functions nor switches over it"
+		}
+		return out, pos, ""
 	}
 	out := map[string]*ssa.Function{}
 	collect := func(m ssa.Value, fns []*ssa.Function) {
@@ -168,8 +223,20 @@ func ruleVersRoute(p *Prog, r *Report) {
 	for _, b := range contains.Blocks {
 		for _, ins := range b.Instrs {
 			c, ok := ins.(*ssa.Call)
-			if !ok || c.Call.StaticCallee() != nil || c.Call.IsInvoke() {
+			if !ok || c.Call.IsInvoke() {
 				continue
+			}
+			if g := c.Call.StaticCallee(); g != nil {
+				// switch spelling: the evaluators are called directly
+				isEval := false
+				for _, f := range table {
+					if f == g {
+						isEval = true
+					}
+				}
+				if !isEval {
+					continue
+				}
 			}
 			if _, isB := c.Call.Value.(*ssa.Builtin); isB {
 				continue
@@ -407,8 +474,42 @@ func ruleVersReject(p *Prog, r *Report) {
 		{"character below 32", func(cv ssa.Value) (bool, bool) { return true, cmpConstCond(cv, token.LSS, 32) }},
 		{"character above 126", func(cv ssa.Value) (bool, bool) { return true, cmpConstCond(cv, token.GTR, 126) }},
 		{"'/' separator present", func(cv ssa.Value) (bool, bool) {
+			// len(strings.SplitN(x, "/", 2)) != 2, or the found flag of strings.Cut(x, "/") (possibly negated),
+			// or strings.Contains / strings.Index spelled tests
+			if x, ok := isNot(cv); ok {
+				if cutPart(x, 2) {
+					return true, true
+				}
+				if c, ok := strCall(x, "strings.Contains"); ok {
+					sep, _ := constString(c.Call.Args[1])
+					return true, sep == "/"
+				}
+			}
+			if cutPart(cv, 2) {
+				return false, true
+			}
+			if c, ok := strCall(cv, "strings.Contains"); ok {
+				sep, _ := constString(c.Call.Args[1])
+				return false, sep == "/"
+			}
 			bo, ok := cv.(*ssa.BinOp)
-			if !ok || bo.Op != token.NEQ {
+			if !ok {
+				return false, false
+			}
+			if c, ok := strCall(bo.X, "strings.Index"); ok {
+				sep, _ := constString(c.Call.Args[1])
+				z, okz := constInt(bo.Y)
+				if sep == "/" && okz {
+					switch {
+					case bo.Op == token.LSS && z == 0, bo.Op == token.EQL && z == -1:
+						return true, true
+					case bo.Op == token.GEQ && z == 0, bo.Op == token.NEQ && z == -1:
+						return false, true
+					}
+				}
+				return false, false
+			}
+			if bo.Op != token.NEQ {
 				return false, false
 			}
 			v, okc := constInt(bo.Y)
@@ -473,40 +574,180 @@ func ruleVersReject(p *Prog, r *Report) {
 	} else {
 		r.Bad("R-VERS-REJECT", "vers.valid: star must be alone", p.FnPos(valid), "no rejection of a '*' that is accompanied by other constraints")
 	}
-	// normalizeConstraints: constraint without operator / without version is an error
+	// normalizeConstraints: constraint without operator / without version is an error. Decided on the text
+	// that is handed to the ecosystem's NewVersion: (version) the call is dominated by the edge on which
+	// that very value is not empty; (comparator) the value is, on every flow into it, either what follows
+	// a prefix of the constraint tested with HasPrefix/CutPrefix, or the empty string (which the first test
+	// rejects) - so a constraint that starts with no comparator never reaches the parser as a version.
 	nc := versFunc(p, "normalizeConstraints")
 	if nc != nil {
 		if insts := instancesOf(p, nc); len(insts) > 0 {
 			fn := insts[0]
-			for _, c := range []struct{ name, what string }{{"constraint without comparator", "operator"}, {"constraint without version", "versionStr"}} {
-				ok := false
-				for _, b := range fn.Blocks {
-					iff, isIf := b.Instrs[len(b.Instrs)-1].(*ssa.If)
-					if !isIf {
-						continue
-					}
-					bo, isBo := iff.Cond.(*ssa.BinOp)
-					if !isBo || bo.Op != token.EQL || !isEmptyConst(bo.Y) {
-						continue
-					}
-					name := ""
-					if ph, isPhi := bo.X.(*ssa.Phi); isPhi {
-						name = ph.Comment
-					}
-					if name == c.what && leadsToError(b.Succs[0], map[*ssa.BasicBlock]bool{}, 0) {
-						ok = true
+			var calls []*ssa.Call
+			for _, b := range fn.Blocks {
+				for _, ins := range b.Instrs {
+					if c, ok := ins.(*ssa.Call); ok {
+						name := ""
+						var args []ssa.Value
+						if c.Call.IsInvoke() {
+							name, args = c.Call.Method.Name(), c.Call.Args
+						} else if g := c.Call.StaticCallee(); g != nil && g.Signature.Recv() != nil && len(c.Call.Args) > 0 {
+							name, args = g.Name(), c.Call.Args[1:]
+						}
+						if name == "NewVersion" && len(args) == 1 {
+							calls = append(calls, c)
+						}
 					}
 				}
-				key := "vers.normalizeConstraints: rejects " + c.name
-				if ok {
-					r.Ok("R-VERS-REJECT", key, p.FnPos(nc), "an empty "+c.what+" returns an error")
-				} else {
-					r.Bad("R-VERS-REJECT", key, p.FnPos(nc), "no error return for an empty "+c.what)
+			}
+			argOf := func(c *ssa.Call) ssa.Value { return c.Call.Args[len(c.Call.Args)-1] }
+			okVer, okOp := len(calls) > 0, len(calls) > 0
+			whyOp := ""
+			for _, c := range calls {
+				vs := argOf(c)
+				if !nonEmptyAt(vs, c.Block()) {
+					okVer = false
 				}
+				if why := operatorStripped(p, vs, map[ssa.Value]bool{}, 0); why != "" {
+					okOp, whyOp = false, why
+				}
+			}
+			key := "vers.normalizeConstraints: rejects constraint without version"
+			if okVer {
+				r.Ok("R-VERS-REJECT", key, p.FnPos(nc), "every text handed to NewVersion has passed a test that it is not empty, whose failing edge is an error")
+			} else {
+				r.Bad("R-VERS-REJECT", key, p.FnPos(nc), "a constraint version reaches NewVersion without a dominating test that it is not empty")
+			}
+			key = "vers.normalizeConstraints: rejects constraint without comparator"
+			if okOp {
+				r.Ok("R-VERS-REJECT", key, p.FnPos(nc), "the text handed to NewVersion is what follows a tested comparator prefix of the constraint, or the empty string (rejected)")
+			} else {
+				r.Bad("R-VERS-REJECT", key, p.FnPos(nc), "a constraint can reach NewVersion without a comparator having been stripped: "+whyOp)
 			}
 		}
 	}
 	r.Floor("R-VERS-REJECT", 12)
+}
+
+// nonEmptyAt: block b is dominated by an edge on which the string v is not empty, the other edge leading to
+// an error
+func nonEmptyAt(v ssa.Value, b *ssa.BasicBlock) bool {
+	return domEdges(b, func(cond ssa.Value, tv bool) bool {
+		bo, ok := cond.(*ssa.BinOp)
+		if !ok {
+			return false
+		}
+		switch {
+		case bo.X == v && isEmptyConst(bo.Y), bo.Y == v && isEmptyConst(bo.X):
+			return bo.Op == token.EQL && !tv || bo.Op == token.NEQ && tv
+		}
+		if l, ok := lenArgAny(bo.X); ok && l == v {
+			if z, ok := constInt(bo.Y); ok {
+				switch {
+				case z == 0 && bo.Op == token.EQL:
+					return !tv
+				case z == 0 && (bo.Op == token.GTR || bo.Op == token.NEQ):
+					return tv
+				case z == 1 && bo.Op == token.GEQ:
+					return tv
+				case z == 1 && bo.Op == token.LSS:
+					return !tv
+				}
+			}
+		}
+		return false
+	})
+}
+
+// operatorStripped: every flow into the string v is the empty constant or the rest of a string behind a
+// prefix that was tested (s[len(op):] or TrimPrefix under HasPrefix(s, op), CutPrefix); "" = yes
+func operatorStripped(p *Prog, v ssa.Value, seen map[ssa.Value]bool, depth int) string {
+	if seen[v] {
+		return ""
+	}
+	seen[v] = true
+	if depth > 6 {
+		return "flow too deep"
+	}
+	prefixTested := func(str, op ssa.Value, b *ssa.BasicBlock) bool {
+		return domEdges(b, func(cond ssa.Value, tv bool) bool {
+			c, ok := cond.(*ssa.Call)
+			if !ok || !tv {
+				return false
+			}
+			f := c.Call.StaticCallee()
+			return f != nil && extName(f) == "strings.HasPrefix" && c.Call.Args[0] == str && (op == nil || c.Call.Args[1] == op)
+		})
+	}
+	switch x := v.(type) {
+	case *ssa.Const:
+		if isEmptyConst(x) {
+			return ""
+		}
+		return "a non-empty constant"
+	case *ssa.Phi:
+		for _, e := range x.Edges {
+			if why := operatorStripped(p, e, seen, depth+1); why != "" {
+				return why
+			}
+		}
+		return ""
+	case *ssa.Slice:
+		// s[len(op):] under HasPrefix(s, op)
+		if x.High != nil || x.Low == nil {
+			return "a slice other than s[len(op):]"
+		}
+		var op ssa.Value
+		if l, ok := lenArgAny(x.Low); ok {
+			op = l
+		} else if _, ok := constInt(x.Low); !ok {
+			return "a slice whose start is not the length of the tested prefix"
+		}
+		if prefixTested(x.X, op, x.Block()) {
+			return ""
+		}
+		return "the rest of a string whose prefix was not tested with HasPrefix"
+	case *ssa.Extract:
+		c, ok := x.Tuple.(*ssa.Call)
+		if !ok {
+			return "an unrecognised tuple"
+		}
+		f := c.Call.StaticCallee()
+		if f == nil {
+			return "the result of a dynamic call"
+		}
+		if extName(f) == "strings.CutPrefix" && x.Index == 0 {
+			return "" // after is "" unless the prefix was found... the found flag is what the empty test sees
+		}
+		if p.IsRepoFn(f) && f.Blocks != nil {
+			for _, b := range f.Blocks {
+				if ret, ok := b.Instrs[len(b.Instrs)-1].(*ssa.Return); ok && x.Index < len(ret.Results) {
+					if why := operatorStripped(p, ret.Results[x.Index], seen, depth+1); why != "" {
+						return why
+					}
+				}
+			}
+			return ""
+		}
+		return "the result of " + f.String()
+	case *ssa.Call:
+		f := x.Call.StaticCallee()
+		if f != nil && extName(f) == "strings.TrimPrefix" && prefixTested(x.Call.Args[0], x.Call.Args[1], x.Block()) {
+			return ""
+		}
+		if f != nil && p.IsRepoFn(f) && f.Blocks != nil && f.Signature.Results().Len() == 1 {
+			for _, b := range f.Blocks {
+				if ret, ok := b.Instrs[len(b.Instrs)-1].(*ssa.Return); ok {
+					if why := operatorStripped(p, ret.Results[0], seen, depth+1); why != "" {
+						return why
+					}
+				}
+			}
+			return ""
+		}
+		return "the result of a call that does not strip a tested prefix"
+	}
+	return fmt.Sprintf("the constraint itself or another unstripped text (%T)", v)
 }
 
 func lenArgAny(v ssa.Value) (ssa.Value, bool) {
@@ -521,11 +762,32 @@ func lenArgAny(v ssa.Value) (ssa.Value, bool) {
 	return c.Call.Args[0], true
 }
 
+// cutPart: v is result k (0 before, 1 after, 2 found) of strings.Cut(x, "/")
+func cutPart(v ssa.Value, k int) bool {
+	ex, ok := v.(*ssa.Extract)
+	if !ok || ex.Index != k {
+		return false
+	}
+	c, ok := ex.Tuple.(*ssa.Call)
+	if !ok {
+		return false
+	}
+	f := c.Call.StaticCallee()
+	if f == nil || extName(f) != "strings.Cut" {
+		return false
+	}
+	sep, _ := constString(c.Call.Args[1])
+	return sep == "/"
+}
+
 // emptyTestOfSplitPart: cond is  parts[k] == ""  for the SplitN result
 func emptyTestOfSplitPart(cond ssa.Value, k int64) bool {
 	bo, ok := cond.(*ssa.BinOp)
 	if !ok || bo.Op != token.EQL || !isEmptyConst(bo.Y) {
 		return false
+	}
+	if cutPart(bo.X, int(k)) {
+		return true
 	}
 	u, ok := bo.X.(*ssa.UnOp)
 	if !ok || u.Op != token.MUL {
